@@ -101,8 +101,9 @@ func vpSpecMemberStrict(c vpMemberCase) bool {
 	if c.federateFalse && sender[len(sender)-1] != c.creator[len(c.creator)-1] {
 		return false
 	}
-	// an invite that carries a third_party_invite block is decided by that block alone
-	if c.tpi != "" {
+	// an invite that carries a third_party_invite block is decided by that block alone (for every other membership the
+	// rules do not look at such a block)
+	if c.tpi != "" && c.newMembership == spec.Invite {
 		if c.oldMembership == spec.Ban {
 			return false // a banned user cannot be invited, third-party or not
 		}
@@ -256,6 +257,10 @@ func vp_C07_member() {
 	}
 	if c.newMembership == spec.Invite && !c.selfTarget {
 		c.tpi = vpChoice("third_party_invite", "", "valid", "forged", "wrong-mxid", "no-pending-invite", "other-inviter")
+	}
+	if c.newMembership == spec.Join && c.selfTarget {
+		// a join whose content carries a (left-over) third_party_invite block: irrelevant to the join rules
+		c.tpi = vpChoice("third_party_invite_on_join", "", "valid", "no-pending-invite")
 	}
 	c.hasPL = vpNondetBool("has_pl")
 	c.senderLvl, c.targetLvl, c.viaLvl = vpNondetI64("lvl.sender"), vpNondetI64("lvl.target"), vpNondetI64("lvl.via")
